@@ -416,6 +416,7 @@ class Outcome:
         return [e for e in self.state.events if e[0] == "call" and (fname is None or e[1] == fname)]
 
 
+STD_PREFIX = re.compile(r"\b(?:std|core|alloc)::(?:result|option|ops|boxed|vec|string|convert|clone|cmp|default|iter|slice|rc|sync)::")
 INT_TY = re.compile(r"^(?:[ui](?:8|16|32|64|128|size))$")
 
 DIVERGE_PANIC = re.compile(r"(panic|unwrap_failed|expect_failed|assert_failed|unreachable_display|panic_bounds_check|"
@@ -442,6 +443,7 @@ class Executor:
         self.loop_info = {}
         self._resolve_cache = {}
         self._promoted_cache = {}
+        self._inline_stack = []
 
     # ---- symbol naming ---------------------------------------------------------
     def fsym(self, callee):
@@ -781,6 +783,8 @@ class Executor:
             return TRUE
         if name == "Ne" and a == b:
             return FALSE
+        if name in ("Eq", "Ne") and a[0] == "variant" and b[0] == "variant" and a[1] == b[1] and a[2] != b[2]:
+            return FALSE if name == "Eq" else TRUE
         if name.endswith("WithOverflow"):
             return ("aggr", "tuple", (("op", name[:-12], a, b), ("sym", "ovf%d" % next(self.sym_seq))), None)
         return ("op", name, a, b)
@@ -789,7 +793,7 @@ class Executor:
     def summary(self, st, frame, func, callee, args, argops):
         """Library summaries. Returns a term or None."""
         E = self.enums
-        c = callee
+        c = STD_PREFIX.sub("", callee)
         if re.match(r"^<Result<.*> as (?:std::ops::)?Try>::branch$", c):
             self.summaries_used.add("<Result as Try>::branch")
             return ("app", "Result.Try::branch", (args[0],))
@@ -892,12 +896,19 @@ class Executor:
             self.loop_info[func] = info
         outs = []
         work = [(0, state)]
-        while work:
-            bbid, st = work.pop()
-            self.step_block(func, fr, bbid, st, work, outs, depth)
-            if len(outs) + len(work) > self.max_paths:
-                outs.append(Outcome("limit", None, st, "path limit exceeded", func))
-                break
+        top = depth == 0 and func not in self._inline_stack
+        if top:
+            self._inline_stack.append(func)
+        try:
+            while work:
+                bbid, st = work.pop()
+                self.step_block(func, fr, bbid, st, work, outs, depth)
+                if len(outs) + len(work) > self.max_paths:
+                    outs.append(Outcome("limit", None, st, "path limit exceeded", func))
+                    break
+        finally:
+            if top:
+                self._inline_stack.pop()
         if _count:
             self.paths += len(outs)
         return outs
@@ -1078,7 +1089,7 @@ class Executor:
             outs.append(Outcome("diverge", None, st, info, func))
             return None
         res = None
-        mu = re.match(r"^(?:std::option::|std::result::)?(Option|Result)::<.*>::(unwrap|expect)$", callee)
+        mu = re.match(r"^(Option|Result)::<.*>::(unwrap|expect)$", STD_PREFIX.sub("", callee))
         if mu and self.summaries:
             self.summaries_used.add("%s::%s (forks: value / panic)" % (mu.group(1), mu.group(2)))
             x = args[0]
@@ -1105,9 +1116,13 @@ class Executor:
             res = self.summary(st, fr, func, callee, args, argops)
         if res is None:
             target = self.resolve(callee, len(args)) if depth < self.max_inline_depth else None
-            if target is not None and self.should_inline(target):
+            if target is not None and self.should_inline(target) and target not in self._inline_stack:
                 fr2 = next(self.frame_seq)
-                sub = self.run(target, args, st, fr2, depth + 1, _count=False)
+                self._inline_stack.append(target)
+                try:
+                    sub = self.run(target, args, st, fr2, depth + 1, _count=False)
+                finally:
+                    self._inline_stack.pop()
                 for o in sub:
                     if o.kind == "return":
                         s2 = o.state
